@@ -175,7 +175,7 @@ func (p *pureGen) taskS(anyState bool) def.Task {
 	r := p.r
 	t := def.Task{
 		Id: rng.Pick(r, []string{"t1", "t2", "", "t3"}), WorkId: rng.Pick(r, []string{"w1", "w2", "", "w1"}),
-		Priority: r.Intn(5) - 2, State: def.State(rng.Pick(r, []string{"scheduled", "scheduled", "cancelled", "dispatched", "done", "err"})),
+		Priority: purePrio(r), State: def.State(rng.Pick(r, []string{"scheduled", "scheduled", "cancelled", "dispatched", "done", "err"})),
 		Err:   rng.Pick(r, []string{"", "", "boom"}),
 		Param: p.g.smallMap(), Meta: p.g.smallMap(), ScheduledAt: p.time(), CreatedAt: p.time(),
 		Deadline: p.optTime(), CancelledAt: p.optTime(), DispatchedAt: p.optTime(), DoneAt: p.optTime(),
